@@ -584,7 +584,8 @@ func (vm *Thread) run() {
 			if !err.IsUndefined() {
 				vm.pop()
 				vm.rethrow(err, vm.BuildStackTracePrepend(stackTrace))
-				return
+				// a handler has been found, carry on there
+				continue
 			}
 
 			vm.replace(result)
@@ -602,7 +603,8 @@ func (vm *Thread) run() {
 			if !err.IsUndefined() {
 				vm.pop()
 				vm.rethrow(err, vm.BuildStackTracePrepend(stackTrace))
-				return
+				// a handler has been found, carry on there
+				continue
 			}
 
 			vm.replace(result)
@@ -613,7 +615,8 @@ func (vm *Thread) run() {
 			if !err.IsUndefined() {
 				vm.pop()
 				vm.rethrow(err, vm.BuildStackTracePrepend(stackTrace))
-				return
+				// a handler has been found, carry on there
+				continue
 			}
 
 			vm.replace(result)
